@@ -1,1 +1,16 @@
 import Ypv.Props.C13
+#print axioms Ypv.C13.max_eq_spec
+#print axioms Ypv.C13.min_eq_spec
+#print axioms Ypv.C13.minmax_eq_spec
+#print axioms Ypv.C13.scanOrder_ints_max
+#print axioms Ypv.C13.scanOrder_ints_min
+#print axioms Ypv.C13.members_of_list
+#print axioms Ypv.C13.has_child_map_eq_spec
+#print axioms Ypv.C13.has_child_aoh_eq_spec
+#print axioms Ypv.C13.parent_eq_spec
+#print axioms Ypv.C13.parent_default_eq_spec
+#print axioms Ypv.C13.parent_zero_eq_spec
+#print axioms Ypv.C13.parent_refuses_above_root
+#print axioms Ypv.C13.name_eq_spec
+#print axioms Ypv.C13.unique_distinct_scalar_partial
+#print axioms Ypv.C13.distinct_groups_partial
